@@ -22,7 +22,6 @@ Proof. exact lookup_add_matcher. Qed.
 
 Theorem C20_registration_matches_exactly :
   forall t' k' e' t k e,
-    no_bar t -> no_bar t' ->
     (ekind_eqb k k' && str_eqb (reg_key t e) (reg_key t' e') = true) <-> (k = k' /\ t = t' /\ fields e = fields e').
 Proof. exact registration_matches_exactly. Qed.
 
